@@ -407,6 +407,9 @@ func (db *SingleBucketBackend) PutObject(
 
 	if objectDir != "." {
 		if err := db.fs.MkdirAll(objectDir, 0777); err != nil {
+			// Refused part-way (a later segment is longer than a file name):
+			// the directories made up to there are not to stay behind either.
+			db.removeEmptyDirsLocked(objectName)
 			return result, err
 		}
 	}
@@ -532,6 +535,10 @@ func (db *SingleBucketBackend) deleteObjectLocked(bucketName, objectName string)
 func (db *SingleBucketBackend) removeEmptyDirsLocked(objectName string) {
 	for dir := path.Dir(path.Clean(objectName)); dir != "." && dir != "/" && dir != ".." && !strings.HasPrefix(dir, "../"); dir = path.Dir(dir) {
 		entries, err := afero.ReadDir(db.fs, filepath.FromSlash(dir))
+		if notExist(err) {
+			// never made (MkdirAll was refused above it): look further up
+			continue
+		}
 		if err != nil || len(entries) > 0 {
 			break
 		}
